@@ -1,3 +1,4 @@
+import TantivyModel.Gen.MergeGuards
 /-!
 # Merge model (C04)
 
@@ -457,5 +458,66 @@ def docsAll (q : List DelOp) (e : Entry) : List DocRec :=
 def pubDocs (st : State) : List DocRec := (st.published.map liveDocsOf).flatten
 def pendDocs (st : State) : List DocRec :=
   ((st.uncommitted ++ st.committed).map (docsAll st.queue)).flatten
+
+/-! ## Part 4 — behaviour selected by the guards extracted from the source (`Gen/MergeGuards`)
+
+The driver executes these `…G` versions and the all-traces theorem is stated about them: while the
+source has the mirrored shape (every guard = 1) they are the definitions above (`Proofs`:
+`stepG_eq`); if a guard flips, the executable model follows the changed code (stale cursor, one
+target for both registers, first-source-only staleness test, no reconciliation), the equality
+lemmas stop compiling and the theorem is reported broken. -/
+
+def mergeEntriesG (q : List DelOp) (srcs : List Entry) (target newId : Nat) : Option Entry :=
+  if Gen.MERGE_CURSOR_AFTER_ADVANCE = 1 then mergeEntries q srcs target newId
+  else mergeEntriesStale q srcs target newId
+
+def mergeTargetG (sourcesCommitted : Bool) (commitOpstamp currentStamp : Nat) : Nat :=
+  if Gen.MERGE_TARGET_BY_REGISTER = 1 then mergeTarget sourcesCommitted commitOpstamp currentStamp
+  else currentStamp
+
+def containsAllG (reg : List Entry) (ids : List Nat) : Bool :=
+  if Gen.END_MERGE_REQUIRES_ALL_SOURCES = 1 then containsAll reg ids
+  else match ids with
+    | [] => true
+    | i :: _ => reg.any fun e => e.segId == i
+
+def reconcileG (st : State) (m : Entry) : Entry :=
+  if Gen.END_MERGE_RECONCILES = 1 then reconcile st m else m
+
+def endMergeG (st : State) (r : Running) : State :=
+  if r.epoch ≠ st.epoch then st
+  else
+    let m := r.merged.map (reconcileG st)
+    if containsAllG st.uncommitted r.sources then
+      { st with uncommitted := swapIn st.uncommitted r.sources m }
+    else if containsAllG st.committed r.sources then
+      let c := swapIn st.committed r.sources m
+      { st with committed := c, published := c }
+    else st
+
+def Sys.stepG (s : Sys) : Ev → Sys
+  | .startMerge ids =>
+    match s.running with
+    | some _ => s
+    | none =>
+      if ids = [] then s
+      else if containsAll s.st.uncommitted ids then
+        { s with
+          running := some ⟨ids, mergeEntriesG s.st.queue (s.st.uncommitted.filter (inSources ids))
+            (mergeTargetG false s.st.committedOpstamp s.stamp) s.nextId, s.st.epoch⟩,
+          stamp := s.stamp + 1, nextId := s.nextId + 1 }
+      else if containsAll s.st.committed ids then
+        { s with
+          running := some ⟨ids, mergeEntriesG s.st.queue (s.st.committed.filter (inSources ids))
+            (mergeTargetG true s.st.committedOpstamp s.stamp) s.nextId, s.st.epoch⟩,
+          nextId := s.nextId + 1 }
+      else s
+  | .endMerge =>
+    match s.running with
+    | none => s
+    | some r => { s with st := endMergeG s.st r, running := none }
+  | ev => s.step ev
+
+def Sys.runG (s : Sys) (evs : List Ev) : Sys := evs.foldl Sys.stepG s
 
 end TantivyModel.Merge
